@@ -91,12 +91,12 @@ def reruns(chk: Check) -> None:
             # the model's `partial` (nothing comparable changed) stands for all of these: the code compares only *.py present on both sides
             for kind in ("emptied", "nonpy"):
                 extra.append({"sc": dict(sc, existing=kind), "result": b["result"], "viol": b["viol"]})
-        if sc["existing"] == "equal":
-            # a stale extra file is not output "that would be generated": the model's `equal` stands for it
-            extra.append({"sc": dict(sc, existing="stale_extra"), "result": b["result"], "viol": b["viol"]})
             if not sc["pp"] and sc["cwd"] == "elsewhere":
                 for cls in ("root_init", "models_init", "model", "endpoint", "client"):
                     extra.append(dict(b, variant=f"missing:{cls}"))
+        if sc["existing"] == "equal":
+            # a stale extra file is not output "that would be generated": the model's `equal` stands for it
+            extra.append({"sc": dict(sc, existing="stale_extra"), "result": b["result"], "viol": b["viol"]})
         if sc["existing"] == "different" and not sc["pp"] and sc["cwd"] == "elsewhere":
             # an edit in each class of emitted file, and a tree generated from an older version of the document
             for cls in FILE_CLASSES:
